@@ -132,6 +132,11 @@ def report_uncovered(run, model, vh, tree, prefix, what, key=None):
 
 def run_binary(args):
     path, argv = args
+    import time
+    for _ in range(60):              # the shared binary is briefly absent while another check relinks it
+        if os.path.exists(argv[0]):
+            break
+        time.sleep(5)
     r = subprocess.run(argv + [path], stdout=subprocess.PIPE, stderr=subprocess.PIPE, timeout=300)
     return r.stdout.decode("latin-1"), r.stderr.decode("latin-1")
 
